@@ -37,7 +37,7 @@ use cat::{Env, Form, Sel, P};
 pub struct C03;
 pub const CHECK: C03 = C03;
 pub fn plan(t: Tier) -> Plan {
-    let mut p = Plan::new(t.pick(5_000, 100_000), t.pick(1800, 3000));
+    let mut p = Plan::new(t.pick(20_000, 200_000), t.pick(1800, 3000));
     // the first structural shrink step already reduces a failing case to "the plant alone in `start`";
     // long tape shrinking (three compiles per attempt) buys nothing
     p.max_shrink_iters = 40;
